@@ -367,6 +367,23 @@ func vHostile(r *rand.Rand, b vBase, nFlips int) []vVariant {
 		s.hdr["kid"] = b.signer.kid
 		add("embed-"+e.name+"-by-attacker-victim-kid", "embed-"+e.name+"-attacker", "attacker", vCompact(s, b.payload), string(b.attacker.alg))
 	}
+	// `kid` header AND embedded jwk, the jwk's own kid member (attacker-chosen text) equal / unequal to the header kid
+	innerKid := func(k *vKey, kid string) jwk.Key { j := k.pubJWK(); _ = j.Set(jwk.KeyIDKey, kid); return j }
+	s = b.sigFor(b.attacker)
+	s.hdr["jwk"], s.hdr["kid"] = innerKid(b.attacker, b.signer.kid), b.signer.kid
+	add("kid-and-jwk-attacker-key-inner-kid-victim", "kid-jwk-confusion", "attacker", vCompact(s, b.payload), string(b.attacker.alg))
+	s = b.sigFor(b.attacker)
+	s.hdr["jwk"], s.hdr["kid"] = innerKid(b.attacker, b.attacker.kid), b.signer.kid
+	add("kid-and-jwk-attacker-key-inner-kid-own", "kid-jwk-confusion", "attacker", vCompact(s, b.payload), string(b.attacker.alg))
+	s = b.sigFor(b.attacker)
+	s.hdr["jwk"], s.hdr["kid"] = innerKid(b.attacker, b.other.kid), b.other.kid
+	add("kid-and-jwk-attacker-key-inner-kid-other", "kid-jwk-confusion", "attacker", vCompact(s, b.payload), string(b.attacker.alg))
+	s = b.sigFor(b.signer)
+	s.hdr["jwk"], s.hdr["kid"] = innerKid(b.signer, b.signer.kid), b.signer.kid
+	add("kid-and-jwk-signer-key-inner-kid-same", "kid-and-jwk-legit", "signer", vCompact(s, b.payload), natural)
+	s = b.sigFor(b.signer)
+	s.hdr["jwk"], s.hdr["kid"] = innerKid(b.signer, "something-else"), b.signer.kid
+	add("kid-and-jwk-signer-key-inner-kid-differs", "kid-and-jwk-legit", "signer", vCompact(s, b.payload), natural)
 	s = b.sigFor(b.signer)
 	s.hdr["jwk"] = map[string]interface{}{"kty": "oct", "k": vEnc.EncodeToString([]byte("secret"))}
 	add("embed-jwk-symmetric", "embed-jwk-sym", "signer", vCompact(s, b.payload), natural)
